@@ -52,10 +52,27 @@ fn tally_ref<'a, D: Distribution<&'a i64>>(d: &D, n: usize, rng: &mut Sm, key: &
     }
     L(h.into_iter().map(|(v, k)| tl![a(v), a(k)]).collect())
 }
+/// the number of choices as reported directly and through the `&T` / `&mut T` forwarding impls (generic and as a
+/// trait object): one number when they agree, a list of all of them when they do not
+fn nc<D: ChoicesDistribution>(d: &mut D) -> Tree {
+    fn via<C: ChoicesDistribution>(c: C) -> usize {
+        c.num_choices().get()
+    }
+    fn dynamic(c: &dyn ChoicesDistribution) -> usize {
+        c.num_choices().get()
+    }
+    let direct = d.num_choices().get();
+    let all = [direct, via(&*d), via(&mut *d), via(&&*d), via(&mut &mut *d), dynamic(&&*d), dynamic(&&mut *d)];
+    if all.iter().all(|x| *x == direct) {
+        au(direct)
+    } else {
+        L(all.iter().map(|x| au(*x)).collect())
+    }
+}
 macro_rules! res {
     ($r:expr, $n:expr, $rng:expr, $t:ident, $key:expr) => {
         match $r {
-            Ok(d) => tl![au(d.num_choices().get()), $t(&d, $n, $rng, $key)],
+            Ok(mut d) => tl![nc(&mut d), $t(&d, $n, $rng, $key)],
             Err(_) => tl![A(-7)],
         }
     };
@@ -102,8 +119,8 @@ fn choice(fl: usize, src: &Vec<i64>, n: usize, rng: &mut Sm, key: &dyn Fn(i64) -
             if src.len() != 3 {
                 return None;
             }
-            let d = ec_core::uniform_distribution_of![src[0], src[1], src[2]];
-            tl![au(d.num_choices().get()), tally(&d, n, rng, key)]
+            let mut d = ec_core::uniform_distribution_of![src[0], src[1], src[2]];
+            tl![nc(&mut d), tally(&d, n, rng, key)]
         }
         _ => return None,
     })
@@ -132,11 +149,11 @@ fn run(input: &Tree) -> Option<Tree> {
         macro_rules! zres {
             ($r:expr) => {
                 match $r {
-                    Ok(d) => {
+                    Ok(mut d) => {
                         for _ in 0..n.min(8) {
                             let _ = d.sample(&mut rng);
                         }
-                        tl![a(d.num_choices().get() as i128), L(vec![])]
+                        tl![nc(&mut d), L(vec![])]
                     }
                     Err(_) => tl![A(-7)],
                 }
@@ -160,12 +177,12 @@ fn run(input: &Tree) -> Option<Tree> {
         }
         let src: Vec<u8> = (0..members).map(|i| (i % m) as u8).collect();
         return Some(match IntoDistribution::<u8>::into_distribution(src) {
-            Ok(d) => {
+            Ok(mut d) => {
                 let mut h: BTreeMap<i64, u64> = BTreeMap::new();
                 for _ in 0..n {
                     *h.entry(i64::from(d.sample(&mut rng))).or_insert(0) += 1;
                 }
-                tl![a(d.num_choices().get() as i128), L(h.into_iter().map(|(v, k)| tl![a(v), a(k)]).collect())]
+                tl![nc(&mut d), L(h.into_iter().map(|(v, k)| tl![a(v), a(k)]).collect())]
             }
             Err(_) => tl![A(-7)],
         });
@@ -253,6 +270,15 @@ fn gen(tier: &str, rng: &mut Sm) -> Gen {
         for kind in 0..5i64 {
             let draws = if size == 1000 { 5 } else { 50 };
             g.inputs.push(tl![a(rng.next() >> 1), au(draws), tl![a(kind), au(size), tv(&[3, 4, 5])]]);
+        }
+    }
+    // sizes around the block sizes a chunked fill would use
+    for size in [255usize, 256, 257, 1023, 1024, 1025, 2048, 3072, 4096, 65536] {
+        for kind in [0i64, 1, 2, 3, 4, 9] {
+            if size > 4096 && kind == 4 {
+                continue;
+            }
+            g.inputs.push(tl![a(rng.next() >> 1), au(2), tl![a(kind), au(size), tv(&[3, 4, 5])]]);
         }
     }
     let sources: Vec<Vec<i64>> = vec![vec![], vec![7], vec![1, 2], vec![4, 5, 6], vec![1, 2, 3, 4], vec![9, 8, 7, 6, 5, 4], vec![5, 5, 7], vec![2, 2, 2, 3]];
